@@ -138,3 +138,10 @@ def concrete_crosscheck(tier, kf):
             return False
         return True
     return common.concrete_crosscheck(HARNESS, POSITIONS, ALPHA, 2, adm)
+
+
+def regex_selftest():
+    import re
+    from bfg9000.shell import posix as pshell
+    return [('ninja path escape', re.compile(r'([:$ ])'), r'$\1', 'a:$ |'),
+            ('posix _bad_chars', pshell._bad_chars, None, "a' -=")]
